@@ -405,6 +405,8 @@ def decide(prop, tier, seed):
                 items_known.append(f"{ur.unit}/{short}")
                 continue
             obligations += 1
+            if os.environ.get("VERIF_DEBUG"):
+                print("DEBUG counted-undischarged", ur.unit, f["function"], [o["name"] for o in mine_here if o["name"] not in kf_obl])
         for o in mine:
             if o["name"] in kf_obl:
                 knowns.append((o, kf_obl[o["name"]]))
